@@ -166,6 +166,14 @@ def soft_eq(m1: Model, m2: Model) -> bool:
         return False
     if m1._variables != m2._variables:  # noqa: SLF001
         return False
+    for c1, c2 in (
+        (m1._derived, m2._derived),  # noqa: SLF001
+        (m1._readouts, m2._readouts),  # noqa: SLF001
+        (m1._reactions, m2._reactions),  # noqa: SLF001
+        (m1._surrogates, m2._surrogates),  # noqa: SLF001
+    ):
+        if c1.keys() != c2.keys():
+            return False
     for k, d1 in m1._derived.items():  # noqa: SLF001
         if (d2 := m2._derived.get(k)) is None:  # noqa: SLF001
             return False
